@@ -29,6 +29,6 @@ for id in $ids; do
   echo "check $id quick exit=$rc: $(grep -c '^VIOLATION' /tmp/seed_$name.$id.log) violation line(s); $(grep -m2 -A1 '^VIOLATION' /tmp/seed_$name.$id.log | grep -v '^VIOLATION' | head -2 | tr '\n' ' ' | cut -c1-300)" >> "$out"
   grep -m3 "INCONCLUSIVE" /tmp/seed_$name.$id.log | cut -c1-300 >> "$out"
 done
-git -C $R checkout -- .
+git -C $R checkout -- .; git -C $R clean -fdq
 rm -rf /tmp/kvout_$name
 cat "$out"
